@@ -55,7 +55,7 @@ Definition url_template_ok (o : hop) : bool :=
 Definition w_op (o : hop) : bool :=
   name_dom (o_name o) && ident_new_ok (o_method o) && ident_new_ok (op_file_name (o_name o)) &&
   forallb w_param (o_params o) && ty_names_ok (o_ret o) && url_template_ok o &&
-  (negb (crowded_args o) || path_segment_ok (op_file_name (o_name o)) && path_segment_ok (required_struct_name (o_name o))).
+  (negb (crowded_args o) || path_segment_ok (op_file_name (o_name o))).
 
 Definition w_auth (a : authstrat) : bool :=
   match a with
